@@ -28,14 +28,16 @@ def i3 : Sig α := input 3
 def lookup (name : String) (ns : List Nat) (fs : List α) : Option (Entry α) :=
   let n (k : Nat) : Nat := ns.getD k 0
   let f (k : Nat) : α := fs.getD k zero
+  -- EMA smoothing constants are public fields: taken from `fs` when given, else the default 2
+  let sm (k : Nat) : α := fs.getD k two
   match name with
   -- trend
-  | "Apo" => some ⟨1, [apo (n 0) (n 1) i0], n 1 - 1⟩
+  | "Apo" => some ⟨1, [apo (n 0) (n 1) (sm 0) (sm 1) i0], n 1 - 1⟩
   | "Aroon" => some ⟨2, aroon (n 0) i0 i1, n 0 - 1⟩
   | "Bop" => some ⟨4, [bop i0 i1 i2 i3], 0⟩
   | "Cci" => some ⟨3, [cci (n 0) i0 i1 i2], n 0 * 2 - 2⟩
   | "Dema" => some ⟨1, [dema (n 0) (n 1) i0], n 0 + n 1 - 2⟩
-  | "Ema" => some ⟨1, [ema (n 0) two i0], n 0 - 1⟩
+  | "Ema" => some ⟨1, [ema (n 0) (sm 0) i0], n 0 - 1⟩
   | "Envelope" => some ⟨1, envelope (maOf (n 0) (n 1)) (f 0) i0, maIdle (maOf (n 0) (n 1))⟩
   | "Hma" => some ⟨1, [hma (n 0) i0], maIdle (.hma (n 0))⟩
   | "Kama" => some ⟨1, [kama (n 0) (n 1) (n 2) i0], n 0⟩
